@@ -355,7 +355,13 @@ private:
     if (record_timestamp_ns >= _next_rotation_time)
     {
       _rotate_files(record_timestamp_ns);
-      _next_rotation_time = _calculate_rotation_tp(record_timestamp_ns, _config);
+
+      do
+      {
+        // advance from the scheduled point, not from the record that happened to trigger the rotation
+        _next_rotation_time = _calculate_rotation_tp(_next_rotation_time, _config);
+      } while (record_timestamp_ns >= _next_rotation_time);
+
       return true;
     }
 
